@@ -329,27 +329,27 @@ func runProperty(id, tier, repo, verif string, writeEvidence, list bool, only *r
 		}
 		sort.Strings(c.Notes)
 		cov := map[string]interface{}{
-			"explanation":        spec.Explanation + " NOT DECIDED: " + spec.NotDecided,
-			"rules":              ruleIDs,
-			"obligations":        len(real),
-			"discharged":         nDis,
-			"known":              nKnown,
-			"violated":           nViol,
+			"explanation":         spec.Explanation + " NOT DECIDED: " + spec.NotDecided,
+			"rules":               ruleIDs,
+			"obligations":         len(real),
+			"discharged":          nDis,
+			"known":               nKnown,
+			"violated":            nViol,
 			"obligations_by_rule": perRule,
-			"role_instances":     c.Counts,
-			"dependency_facts":   c.DepFacts,
-			"controls_total":     ctlTotal,
-			"controls_fired":     ctlFired,
-			"packages":           len(c.Roots),
-			"functions_analysed": len(c.RepoFns),
-			"test_functions":     len(c.TestFns),
-			"callgraph":          c.cgKind,
-			"targets":            passes,
-			"samples":            samples,
-			"seeded_replay":      seedRes,
-			"notes":              c.Notes,
-			"exhaustive":         true,
-			"checker_cmd":        fmt.Sprintf("bin/odbcheck -property %s -tier %s", id, tier),
+			"role_instances":      c.Counts,
+			"dependency_facts":    c.DepFacts,
+			"controls_total":      ctlTotal,
+			"controls_fired":      ctlFired,
+			"packages":            len(c.Roots),
+			"functions_analysed":  len(c.RepoFns),
+			"test_functions":      len(c.TestFns),
+			"callgraph":           c.cgKind,
+			"targets":             passes,
+			"samples":             samples,
+			"seeded_replay":       seedRes,
+			"notes":               c.Notes,
+			"exhaustive":          true,
+			"checker_cmd":         fmt.Sprintf("bin/odbcheck -property %s -tier %s", id, tier),
 		}
 		ev := Evidence{PropertyID: id, Tier: tier, Seed: seed, Level: "other", Coverage: cov,
 			Assumptions: spec.Assumptions, WallS: time.Since(t0).Seconds(), Violations: nViol}
